@@ -52,6 +52,10 @@ CLAIMED = {
             "bounded-exhaustive enumeration of (move/rename operation, client location, client import block) with CPython importing every module before/after",
             "22 operations (MoveGlobal of a function/class/variable to 4 destinations, MoveModule of modules and a package into/out of packages, Rename of module/package/sub-package, ModuleToPackage) x client in the root / a package / a sub-package x every single import style of the moved thing, every ordered pair of styles and every style next to an unrelated import of the destination package are performed with the real code; afterwards every module must import and each client must print what it printed before.",
             "definitions carry unique values; the moved function calls a sibling helper and an imported module so lost dependencies show", "3/C05"),
+    "C17": ("exploration",
+            "bounded-exhaustive enumeration of target/usage shapes for EncapsulateField, IntroduceFactory, MethodObject, LocalToField and UseFunction with CPython execution before/after",
+            "Five generated spaces (field read/write/augmented/chained/conditional/subclass uses x hosts x file endings x query point; constructor call shapes x nested/top-level class x hosts x global/static factory; 8 function/method shapes incl. nested class, closure, first/last method; every local of a method; function bodies re-occurring with other names in 1-2 places x hosts) are refactored with the real code; every performed result is compiled and every module run before/after.",
+            "behaviour = stdout + exception type of importing every module; bounded shapes", "3/C17"),
 }
 
 PENDING_REASON = "check not built yet in this session (see DESIGN.md section 8 build order); nothing is claimed for it"
